@@ -3,6 +3,7 @@
 package main
 
 import (
+	"path/filepath"
 	"fmt"
 	mrand "math/rand"
 	"net/url"
@@ -41,7 +42,7 @@ func init() {
 			}
 			v1, v2 := vpL(c.In, "v1"), vpL(c.In, "v2")
 			content := render(v1, 1, "empty")
-			w, err := vpNewWorld(&vpCfg{EmailDomains: []string{}, EmailsFile: &content})
+			w, err := vpNewWorld(&vpCfg{EmailDomains: []string{}, EmailsFile: &content, EmailsViaSymlink: vpS(c.In, "style") == "symlink"})
 			if err != nil {
 				env.emit(vpOut{ID: c.ID, Err: "world: " + err.Error()})
 				continue
@@ -65,7 +66,14 @@ func init() {
 					obs["session"] = w.sessionCookieEffect(cb)
 				case "rewrite":
 					text := render(v2, 2, vpS(c.In, "emptyStyle"))
-					if vpS(c.In, "style") == "inplace" {
+					if vpS(c.In, "style") == "symlink" {
+						// publish version 2: new data directory, the "current" link swapped atomically, the old directory removed
+						os.MkdirAll(filepath.Join(w.emailsDir, "data_v2"), 0o755)
+						os.WriteFile(filepath.Join(w.emailsDir, "data_v2", "emails.txt"), []byte(text), 0o600)
+						os.Symlink("data_v2", filepath.Join(w.emailsDir, "current.tmp"))
+						os.Rename(filepath.Join(w.emailsDir, "current.tmp"), filepath.Join(w.emailsDir, "current"))
+						os.RemoveAll(filepath.Join(w.emailsDir, "data_v1"))
+					} else if vpS(c.In, "style") == "inplace" {
 						os.WriteFile(w.emailsPath, []byte(text), 0o600) // truncate and write
 					} else {
 						tmp := w.emailsPath + ".tmp"
